@@ -710,3 +710,13 @@ Proof.
     destruct (decide (k = NODE)) as [->|Hne]; rewrite ?lookup_insert, ?lookup_insert_ne by auto;
     split; eauto.
 Qed.
+
+(* ---- _node always is the node ------------------------------------------------------------------ *)
+Lemma node_arg_wins (a : gmap N jsval) (j : bytes) :
+  node_override a j !! NODE = Some (JStr j) /\ forall k, k <> NODE -> node_override a j !! k = a !! k.
+Proof. split; [apply lookup_insert|intros k Hk; apply lookup_insert_ne; auto]. Qed.
+
+(* the arg map a context call runs with: the node's JSON under _node whatever the caller passed *)
+Lemma call_node_arg_wins c a id now :
+  c_node c = Some (id, now) -> with_node c a now !! NODE = Some (JStr now).
+Proof. intros H. unfold with_node. rewrite H. apply lookup_insert. Qed.
